@@ -469,7 +469,9 @@ func corrupt(r *rng.R, b []byte) []byte {
 }
 
 func (g *gen) imageURL() string {
-	return strings.NewReplacer("\n", " ", "\t", " ", "\\", "/").Replace(g.imageURL0())
+	// no newline (CSS strings), no backslash, and no "</style>" (it would end the HTML <style> element
+	// the URL may be written in)
+	return strings.NewReplacer("\n", " ", "\t", " ", "\\", "/", "</style>", "%3C/style>").Replace(g.imageURL0())
 }
 
 func (g *gen) imageURL0() string {
